@@ -1007,6 +1007,14 @@ static string opMtHist(const vector<string>& steps)
 	out << "base=" << mtSizes();
 	{
 		vector<std::unique_ptr<MT>> pool;
+		// the apply functors are OBJECTS with a per-call memo table; user code (and the BDD automata) keep one functor and run it
+		// over many diagrams, so every history keeps one functor per leaf operation alive across its steps
+		std::map<int, std::unique_ptr<MtF1>> keep1;
+		std::map<int, std::unique_ptr<MtF2>> keep2;
+		std::map<int, std::unique_ptr<MtF3>> keep3;
+		auto fn1 = [&](int o) -> MtF1& { auto& p = keep1[o]; if (!p) p.reset(new MtF1(o)); return *p; };
+		auto fn2 = [&](int o) -> MtF2& { auto& p = keep2[o]; if (!p) p.reset(new MtF2(o)); return *p; };
+		auto fn3 = [&](int o) -> MtF3& { auto& p = keep3[o]; if (!p) p.reset(new MtF3(o)); return *p; };
 		for (size_t k = 0; k < steps.size(); ++k) {
 			vector<string> f = split(steps[k], '!');
 			const string& op = f.at(0);
@@ -1018,10 +1026,10 @@ static string opMtHist(const vector<string>& steps)
 			else if (op == "assign") { ent(1) = ent(2); }
 			else if (op == "selfassign") { MT& a = ent(1); a = *&a; }
 			else if (op == "kill") { pool[ix(1)].reset(); }
-			else if (op == "ap1") { MtF1 fn(static_cast<int>(toN(f.at(2)))); pool.emplace_back(new MT(fn(ent(1)))); }
-			else if (op == "ap2") { MtF2 fn(static_cast<int>(toN(f.at(3)))); pool.emplace_back(new MT(fn(ent(1), ent(2)))); }
-			else if (op == "ap2to") { MtF2 fn(static_cast<int>(toN(f.at(3)))); ent(1) = fn(ent(1), ent(2)); }
-			else if (op == "ap3") { MtF3 fn(static_cast<int>(toN(f.at(4)))); pool.emplace_back(new MT(fn(ent(1), ent(2), ent(3)))); }
+			else if (op == "ap1") { MtF1& fn = fn1(static_cast<int>(toN(f.at(2)))); pool.emplace_back(new MT(fn(ent(1)))); }
+			else if (op == "ap2") { MtF2& fn = fn2(static_cast<int>(toN(f.at(3)))); pool.emplace_back(new MT(fn(ent(1), ent(2)))); }
+			else if (op == "ap2to") { MtF2& fn = fn2(static_cast<int>(toN(f.at(3)))); ent(1) = fn(ent(1), ent(2)); }
+			else if (op == "ap3") { MtF3& fn = fn3(static_cast<int>(toN(f.at(4)))); pool.emplace_back(new MT(fn(ent(1), ent(2), ent(3)))); }
 			else if (op == "proj") {
 				size_t mask = toN(f.at(2));
 				MtF2 fn(static_cast<int>(toN(f.at(3))));
